@@ -175,13 +175,9 @@ class PDLInterpFunctions(InterpreterFunctions):
     ) -> tuple[Any, ...]:
         assert len(args) == 1
         assert isinstance(args[0], Operation)
-        attrname = op.constraint_name.data
-        if attrname in args[0].attributes:
-            return (args[0].attributes[attrname],)
-        elif attrname in args[0].properties:
-            return (args[0].properties[attrname],)
-        else:
-            return (None,)
+        # A property shadows an attribute of the same name, as in
+        # `Operation.get_attr_or_prop` (used by the direct PDL interpreter).
+        return (args[0].get_attr_or_prop(op.constraint_name.data),)
 
     @impl(pdl_interp.GetAttributeTypeOp)
     def run_get_attribute_type(
